@@ -284,7 +284,32 @@ func (os *OutputStream) GetNext(ctx context.Context, lastseen robust.Id) []Messa
 	// Wait until a new message appears.
 	os.messagesMu.Lock()
 	for {
-		current, _ = os.getUnlocked(uint64(current.Messages[0].Id.Id))
+		current, ok = os.getUnlocked(uint64(current.Messages[0].Id.Id))
+		if !ok {
+			// The message we were waiting behind was deleted in the meantime
+			// (compaction reached the tail of the stream). Like above, look for
+			// anything newer than lastseen, and otherwise wait behind what is
+			// now the last message.
+			var key [8]byte
+			binary.BigEndian.PutUint64(key[:], uint64(lastseen.Id)+1)
+			i := os.db.NewIterator(&util.Range{
+				Start: key[:],
+				Limit: nil,
+			}, nil)
+			if i.First() {
+				mb := unmarshalMessageBatch(i.Value())
+				i.Release()
+				os.messagesMu.Unlock()
+				return mb.Messages
+			}
+			i.Release()
+			i = os.db.NewIterator(nil, nil)
+			if !i.Last() {
+				log.Panicf("outputstream LevelDB is empty, which is a BUG\n")
+			}
+			current = unmarshalMessageBatch(i.Value())
+			i.Release()
+		}
 		next, ok := os.getUnlocked(current.NextID)
 		if ok {
 			os.messagesMu.Unlock()
